@@ -84,16 +84,48 @@ inductive TStmt (β : Type) where
   | obj (p : Str) (o : Term β)
   | anon (b : β) (p : Str) (stmts : List (TStmt β))
 
-/-- `ExportResourceStatements` (default options) keeping the inlined blank nodes -/
-def exportT (B : Builder β) : Nat → Term β → Option (List (TStmt β))
-  | 0, _ => none
-  | fuel + 1, s =>
-    mapOpt (fun (po : PO β) =>
-      match po.2 with
-      | .bnode b =>
-        if B.refCount b == 1 then (exportT B fuel po.2).map (TStmt.anon b po.1)
-        else some (TStmt.obj po.1 po.2)
-      | _ => some (TStmt.obj po.1 po.2)) (B.stmts s)
+/-- the loop of `exportResourceStatements` (default options, repaired export with the `inlined` set `V`)
+    keeping the inlined blank nodes; `rec` is the recursive call -/
+def foldStmtsT (B : Builder β) (rec : Term β → List β → Option (List (TStmt β) × List β)) :
+    List (PO β) → List β → Option (List (TStmt β) × List β)
+  | [], V => some ([], V)
+  | po :: rest, V =>
+    match po.2 with
+    | .bnode b =>
+      if B.refCount b == 1 && !decide (b ∈ V) then
+        match rec po.2 V with
+        | none => none
+        | some (lb, V1) =>
+          match foldStmtsT B rec rest V1 with
+          | none => none
+          | some (l, V2) => some (TStmt.anon b po.1 lb :: l, V2)
+      else
+        match foldStmtsT B rec rest V with
+        | none => none
+        | some (l, V2) => some (TStmt.obj po.1 po.2 :: l, V2)
+    | _ =>
+      match foldStmtsT B rec rest V with
+      | none => none
+      | some (l, V2) => some (TStmt.obj po.1 po.2 :: l, V2)
+
+/-- `exportResourceStatements(subject, opts, inlined)` with tags -/
+def exportT (B : Builder β) : Nat → Term β → List β → Option (List (TStmt β) × List β)
+  | 0, _, _ => none
+  | fuel + 1, s, V => foldStmtsT B (exportT B fuel) (B.stmts s) (markSubject V s)
+
+/-- one loop of `ExportResources` over the subjects, with tags: `(subject, statements)` per exported resource -/
+def foldRootsT (B : Builder β) (fuel : Nat) (pick : Term β → List β → Bool) :
+    List (Term β) → List β → Option (List (Term β × List (TStmt β)) × List β)
+  | [], V => some ([], V)
+  | s :: rest, V =>
+    if pick s V then
+      match exportT B fuel s V with
+      | none => none
+      | some (st, V1) =>
+        match foldRootsT B fuel pick rest V1 with
+        | none => none
+        | some (rs, V2) => some ((s, st) :: rs, V2)
+    else foldRootsT B fuel pick rest V
 
 /-- the member name under which the encoder files a statement (`@type`, or the compacted predicate) -/
 def encKey (E : Enc) (p : Str) (o : Option (Term β)) : Str :=
@@ -120,20 +152,26 @@ end
 def groupsOf (E : Enc) (st : List (TStmt β)) : List (Str × Str × List (Tree β)) := groupByKey (stmtTrees E st)
 
 /-- the forest the encoder's document is expected to denote (the certificate): one default-graph block
-    with a node object per exported resource, in the order `ord` -/
-def encForest (cfg : Cfg β) (d : List (DQuad β)) (ord : List (Term β)) : Option (Forest β) :=
+    with a node object per exported resource, in the order of the two passes of `ExportResources` -/
+def encForest (cfg : Cfg β) (d : List (DQuad β)) (ord ord2 : List (Term β)) : Option (Forest β) :=
   let E := mkEnc cfg
   let D := dbuild d
   if !D.graphNames.contains none then some [] else
   let B := D.builder none
-  (mapOpt (fun (s : Term β) =>
-    (exportT B (d.length + 1) s).map fun st =>
-      let id : NodeId β :=
-        match s with
-        | .iri v => .iri v
-        | .bnode b => if B.refCount b == 0 then .anon b else .named b
-        | .lit _ _ _ => .iri []
-      Tree.node id ((groupsOf E st).map (·.2))) (B.roots Opts.default ord)).map fun ns => [(none, ns)]
+  let fuel := d.length + 1
+  match foldRootsT B fuel (B.pick1 Opts.default) ord [] with
+  | none => none
+  | some (rs1, V1) =>
+    match foldRootsT B fuel (B.pick2 Opts.default) ord2 V1 with
+    | none => none
+    | some (rs2, _) =>
+      some [(none, (rs1 ++ rs2).map fun (r : Term β × List (TStmt β)) =>
+        let id : NodeId β :=
+          match r.1 with
+          | .iri v => .iri v
+          | .bnode b => if B.refCount b == 0 then .anon b else .named b
+          | .lit _ _ _ => .iri []
+        Tree.node id ((groupsOf E r.2).map (·.2)))]
 
 /-- the counter at which the entries of the encoder's document start: a single item is the document
     itself, several items sit in an `@graph` whose wrapper takes a blank node first -/
@@ -145,8 +183,8 @@ def encStart (F : Forest β) : Nat :=
 /-- The certificate of the encoder theorem: the forest validates against the dataset, and the fragment
     semantics reads the encoder's document as exactly that forest. Decidable; the driver evaluates it
     for every case of the harness (op `jl.cert`). -/
-def encCert (mode11 : Bool) (base : Option Str) (cfg : Cfg β) (d : List (DQuad β)) (ord : List (Term β)) : Bool :=
-  match encode cfg d ord, encForest cfg d ord with
+def encCert (mode11 : Bool) (base : Option Str) (cfg : Cfg β) (d : List (DQuad β)) (ord ord2 : List (Term β)) : Bool :=
+  match encode cfg d ord ord2, encForest cfg d ord ord2 with
   | some doc, some F =>
     forestOK F d && decide (toRdf mode11 base doc = some (denForest cfg.label F (encStart F)).1)
   | _, _ => false
